@@ -18,12 +18,12 @@ pub fn prop() -> Prop {
 fn spec() -> Spec {
     Spec {
         kinds: vec![Kind { name: "offsets", quick: 8_000, thorough: 400_000, serial: false }],
-        rule: "each case = synthetic cell (coarse box meshes; with/without base and tool; 0..3 obstacles placed next to links of the initial or of an offset posture; touch-only or distance safety tables incl. exemptions; modes first/all) x collision-free initial vector x from/to vectors (each joint moved by 0.05..3 rad either way, some beyond the limits) x rayon pool size in {1,2,4,16}; the result of non_colliding_offsets must equal, in order, the up-to-twelve single-joint replacements that satisfy the limits and for which the same robot's full collides() is false. non-trivial = some candidates kept and some rejected for collision; distinct = hash(cell, initial, from, to) Workload additions: a third of the cells with a forbidden arc opposite to the current value written as a wrap-around range and replacement values on another turn; designed base meshes next to links of J1..J3 offset postures (half of them without environment); off-origin obstacle meshes. Rounds 7-9: unconstrained joints (from == to) among the limits; both replacement values on one side of the current value.",
+        rule: "each case = synthetic cell (coarse box meshes; with/without base and tool; 0..3 obstacles placed next to links of the initial or of an offset posture; touch-only or distance safety tables incl. exemptions; modes first/all) x collision-free initial vector x from/to vectors (each joint moved by 0.05..3 rad either way, some beyond the limits) x rayon pool size in {1,2,4,16}; the result of non_colliding_offsets must equal, in order, the up-to-twelve single-joint replacements that satisfy the limits and for which the same robot's full collides() is false. non-trivial = some candidates kept and some rejected for collision; distinct = hash(cell, initial, from, to) Workload additions: a third of the cells with a forbidden arc opposite to the current value written as a wrap-around range and replacement values on another turn; designed base meshes next to links of J1..J3 offset postures (half of them without environment); off-origin obstacle meshes. Rounds 7-9: unconstrained joints (from == to) among the limits; both replacement values on one side of the current value. Round 10: replacement values 0.3..2.5 mrad from the current value with an obstacle overlapping the stepped link by less than its sweep; a second call on the same robot object after one obstacle or the safety table was overwritten in place.",
         assumptions: vec![
             "precondition of the API: the initial vector is collision free (checked with the same robot's collides(); other cases are skipped as inconclusive)",
             "'reported free' is the same robot's full collides() (its agreement with geometry is C10's subject)",
         ],
-        minimums: vec![("oracle_evals", 20_000, 1_200_000), ("candidates.colliding", 2_000, 120_000), ("candidates.free", 10_000, 600_000), ("candidates.out_of_limits", 500, 30_000)],
+        minimums: vec![("oracle_evals", 20_000, 1_200_000), ("candidates.colliding", 2_000, 120_000), ("candidates.free", 10_000, 600_000), ("candidates.out_of_limits", 500, 30_000), ("tiny_step_candidates_colliding", 50, 2_500), ("second_calls_after_an_edit_in_place", 800, 40_000)],
     }
 }
 
@@ -127,6 +127,57 @@ fn run_case(_kind: &str, idx: u64, rng: &mut Rng, mon: &mut Mon, _tier: Tier) {
             cell.add_random_obstacle(rng);
         }
     }
+    let mode = if rng.bool(0.5) { CheckMode::FirstCollisionOnly } else { CheckMode::AllCollsions };
+    cell.safety = if rng.bool(0.5) { SafetySpec::touch(mode) } else { cell.random_safety(rng, mode) };
+    if cell.safety.to_robot_default > 0.02 {
+        cell.safety.to_robot_default = 0.008;
+    }
+    // a seventh of the cells: one replacement value is a very small step (0.3 .. 2.5 mrad) and an obstacle overlaps the
+    // link of that joint (or a later one) at the stepped posture by less than the link's far end sweeps in the step
+    let mut tiny: Option<(usize, &'static str)> = None;
+    if rng.usize(7) == 0 {
+        let j = rng.usize(4);
+        let step = rng.logu(3e-4, 2.5e-3);
+        let side = rng.bool(0.5);
+        if side { from[j] = initial[j] - step } else { to[j] = initial[j] + step }
+        let mut cand = initial;
+        cand[j] = if side { from[j] } else { to[j] };
+        let target = if rng.bool(0.6) { j } else { j + rng.usize(6 - j) };
+        // the face of the target box that the step moves outwards the most (seen from the stepped posture); the overlap
+        // is a part of that movement, so the obstacle is clear of the link at the current value
+        let (fi, fc) = (cell.link_frames(&initial)[target], cell.link_frames(&cand)[target]);
+        let (h, c) = (cell.links[target].box_half.unwrap(), cell.links[target].box_centre);
+        let mut best = (0usize, 1.0f64, 0.0f64);
+        for k in 0..3 {
+            for sgn in [-1.0, 1.0] {
+                let mut pl = c;
+                pl[k] += sgn * h[k];
+                let mut e = [0.0; 3];
+                e[k] = sgn;
+                let n = crate::refmodel::mv(&fc.r, e);
+                let moved = crate::refmodel::dot(crate::refmodel::sub(fc.apply(pl), fi.apply(pl)), n);
+                if moved > best.2 {
+                    best = (k, sgn, moved);
+                }
+            }
+        }
+        // (up to six draws of size and lateral position until the obstacle really separates the two postures for this
+        // robot and table - free at the current value, reported colliding at the stepped one)
+        if best.2 > 1e-5 {
+            for _ in 0..6 {
+                let d = -rng.range(0.2, 0.7) * best.2;
+                let i = cell.add_designed_obstacle_at(rng, &cand, target, d, Some((best.0, best.1)));
+                let probe = cell.build();
+                if !probe.collides(&initial) && probe.collides(&cand) {
+                    mon.count("tiny_step_obstacles_that_separate_the_two_postures");
+                    break;
+                }
+                cell.env.remove(i);
+            }
+        }
+        tiny = Some((j, if side { "from" } else { "to" }));
+        mon.count("cells_with_a_tiny_step");
+    }
     // a sixth of the cells with a base: the base mesh is a designed box next to a link or the tool of an offset
     // posture of J1..J3 (half of them without any environment): the candidate must be withheld because of the base
     if with_base && rng.bool(0.17) {
@@ -146,11 +197,6 @@ fn run_case(_kind: &str, idx: u64, rng: &mut Rng, mon: &mut Mon, _tier: Tier) {
             cell.env.clear();
         }
         mon.count("cells_with_a_designed_base");
-    }
-    let mode = if rng.bool(0.5) { CheckMode::FirstCollisionOnly } else { CheckMode::AllCollsions };
-    cell.safety = if rng.bool(0.5) { SafetySpec::touch(mode) } else { cell.random_safety(rng, mode) };
-    if cell.safety.to_robot_default > 0.02 {
-        cell.safety.to_robot_default = 0.008;
     }
     // a quarter of the robots has a parallelogram (J2 drives J3) on top of the stack: a single-joint move
     // of J2 then also moves the links behind J3 relative to the upper arm
@@ -187,80 +233,127 @@ fn run_case(_kind: &str, idx: u64, rng: &mut Rng, mon: &mut Mon, _tier: Tier) {
         mon.inconclusive("initial-vector-collides");
         return;
     }
-    // expected: candidates in task order (joint 0 from, joint 0 to, joint 1 from, ...)
-    let cons = cell.constraints;
-    let mut expected: Vec<[f64; 6]> = vec![];
-    let mut why: Vec<(usize, &str, &str)> = vec![];
-    for j in 0..6 {
-        for (name, tgt) in [("from", &from), ("to", &to)] {
-            let mut c = initial;
-            c[j] = tgt[j];
-            if !cons.compliant(&c) {
-                mon.count("candidates.out_of_limits");
-                why.push((j, name, "out-of-limits"));
-                continue;
-            }
-            if robot.collides(&c) {
-                mon.count("candidates.colliding");
-                why.push((j, name, "colliding"));
-                continue;
-            }
-            mon.count("candidates.free");
-            why.push((j, name, "free"));
-            expected.push(c);
-        }
-    }
-    let n_coll = why.iter().filter(|w| w.2 == "colliding").count();
-    if n_coll > 0 && !expected.is_empty() {
-        mon.nontrivial(hash_combine(hash_combine(crate::props::robot_hash(&cell.robot), hash_f64s(&initial)), hash_f64s(&[from, to].concat())));
-    }
     let pool_size = *rng.pick(&[1usize, 2, 4, 16]);
-    let pool = rayon::ThreadPoolBuilder::new().num_threads(pool_size).build().unwrap();
-    let got = pool.install(|| robot.non_colliding_offsets(&initial, &from, &to));
-    mon.count(&format!("pool.{}", pool_size));
-    let detail = |extra: serde_json::Value| json!({"cell": cell.json(), "initial": jf(&initial), "from": jf(&from), "to": jf(&to), "pool": pool_size,
-        "candidates": why.iter().map(|(j, n, w)| json!([j, n, w])).collect::<Vec<_>>(), "extra": extra});
-    let same = got.len() == expected.len() && got.iter().zip(expected.iter()).all(|(a, b)| a == b);
-    if same {
-        mon.held_n(12);
-    } else {
-        // diagnose the first difference
-        let mut reported = false;
-        for g in &got {
-            if !expected.iter().any(|e| e == g) {
-                let j = (0..6).find(|j| g[*j] != initial[*j]).unwrap_or(0);
-                let reason = if !cons.compliant(g) { "out-of-limits".to_string() } else {
-                    // which pair makes it collide: ask the full report
-                    let pairs = robot.near(g, &{ let mut s = cell.safety.build(); s.mode = CheckMode::AllCollsions; s });
-                    let p = pairs.first().cloned().unwrap_or((0, 0));
-                    let moved = |id: usize| id < 6 && id >= j || id == J_TOOL;
-                    let kind = match (moved(p.0), moved(p.1)) {
-                        (true, true) => "moved-vs-moved",
-                        (false, false) => "unmoved-vs-unmoved",
-                        _ => if p.1 >= ENV_START_IDX || p.0 >= ENV_START_IDX { "moved-vs-environment" } else { "moved-vs-unmoved" },
-                    };
-                    format!("colliding:{}:{}", kind, category(p.0, p.1))
-                };
-                mon.violation(&format!("offered-illegal:{}", reason), "a neighbour configuration that is out of limits or reported colliding was offered", detail(json!({"offered": jf(g), "moved_joint": j, "got": got.iter().map(|s| jf(s)).collect::<Vec<_>>()})));
-                reported = true;
-                break;
+    let clause = |mon: &mut Mon, robot: &rs_opw_kinematics::kinematics_with_shape::KinematicsWithShape, cell: &Cell, tag: &str| -> (Vec<(usize, &'static str, &'static str)>, usize) {
+        // expected: candidates in task order (joint 0 from, joint 0 to, joint 1 from, ...)
+        let cons = cell.constraints;
+        let mut expected: Vec<[f64; 6]> = vec![];
+        let mut why: Vec<(usize, &str, &str)> = vec![];
+        for j in 0..6 {
+            for (name, tgt) in [("from", &from), ("to", &to)] {
+                let mut c = initial;
+                c[j] = tgt[j];
+                if !cons.compliant(&c) {
+                    mon.count("candidates.out_of_limits");
+                    why.push((j, name, "out-of-limits"));
+                    continue;
+                }
+                if robot.collides(&c) {
+                    mon.count("candidates.colliding");
+                    why.push((j, name, "colliding"));
+                    continue;
+                }
+                mon.count("candidates.free");
+                why.push((j, name, "free"));
+                expected.push(c);
             }
         }
-        if !reported {
-            for e in &expected {
-                if !got.iter().any(|g| g == e) {
-                    let j = (0..6).find(|j| e[*j] != initial[*j]).unwrap_or(0);
-                    mon.violation(&format!("withheld-legal:joint{}", j + 1), "a neighbour configuration that is within limits and reported free was withheld", detail(json!({"withheld": jf(e), "moved_joint": j, "got": got.iter().map(|s| jf(s)).collect::<Vec<_>>()})));
+        let n_coll = why.iter().filter(|w| w.2 == "colliding").count();
+        if n_coll > 0 && !expected.is_empty() {
+            mon.nontrivial(hash_combine(hash_combine(crate::props::robot_hash(&cell.robot), hash_f64s(&initial)), hash_f64s(&[from, to].concat())));
+        }
+        let pool = rayon::ThreadPoolBuilder::new().num_threads(pool_size).build().unwrap();
+        let got = pool.install(|| robot.non_colliding_offsets(&initial, &from, &to));
+        mon.count(&format!("pool.{}", pool_size));
+        let detail = |extra: serde_json::Value| json!({"cell": cell.json(), "history": tag, "initial": jf(&initial), "from": jf(&from), "to": jf(&to), "pool": pool_size,
+            "candidates": why.iter().map(|(j, n, w)| json!([j, n, w])).collect::<Vec<_>>(), "extra": extra});
+        let same = got.len() == expected.len() && got.iter().zip(expected.iter()).all(|(a, b)| a == b);
+        if same {
+            mon.held_n(12);
+        } else {
+            // diagnose the first difference
+            let mut reported = false;
+            for g in &got {
+                if !expected.iter().any(|e| e == g) {
+                    let j = (0..6).find(|j| g[*j] != initial[*j]).unwrap_or(0);
+                    let reason = if !cons.compliant(g) { "out-of-limits".to_string() } else {
+                        // which pair makes it collide: ask the full report
+                        let pairs = robot.near(g, &{ let mut s = cell.safety.build(); s.mode = CheckMode::AllCollsions; s });
+                        let p = pairs.first().cloned().unwrap_or((0, 0));
+                        let moved = |id: usize| id < 6 && id >= j || id == J_TOOL;
+                        let kind = match (moved(p.0), moved(p.1)) {
+                            (true, true) => "moved-vs-moved",
+                            (false, false) => "unmoved-vs-unmoved",
+                            _ => if p.1 >= ENV_START_IDX || p.0 >= ENV_START_IDX { "moved-vs-environment" } else { "moved-vs-unmoved" },
+                        };
+                        format!("colliding:{}:{}", kind, category(p.0, p.1))
+                    };
+                    mon.violation(&format!("{}offered-illegal:{}", tag, reason), "a neighbour configuration that is out of limits or reported colliding was offered", detail(json!({"offered": jf(g), "moved_joint": j, "got": got.iter().map(|s| jf(s)).collect::<Vec<_>>()})));
                     reported = true;
                     break;
                 }
             }
+            if !reported {
+                for e in &expected {
+                    if !got.iter().any(|g| g == e) {
+                        let j = (0..6).find(|j| e[*j] != initial[*j]).unwrap_or(0);
+                        mon.violation(&format!("{}withheld-legal:joint{}", tag, j + 1), "a neighbour configuration that is within limits and reported free was withheld", detail(json!({"withheld": jf(e), "moved_joint": j, "got": got.iter().map(|s| jf(s)).collect::<Vec<_>>()})));
+                        reported = true;
+                        break;
+                    }
+                }
+            }
+            if !reported {
+                mon.violation(&format!("{}offsets-order-or-duplicates", tag), "the offered list has the right members but a different order / multiplicity", detail(json!({"got": got.iter().map(|s| jf(s)).collect::<Vec<_>>()})));
+            }
         }
-        if !reported {
-            mon.violation("offsets-order-or-duplicates", "the offered list has the right members but a different order / multiplicity", detail(json!({"got": got.iter().map(|s| jf(s)).collect::<Vec<_>>()})));
+        (why, got.len())
+    };
+    let (why, offered) = clause(mon, &robot, &cell, "");
+    if let Some((tj, tname)) = tiny {
+        if why.iter().any(|w| w.0 == tj && w.1 == tname && w.2 == "colliding") {
+            mon.count("tiny_step_candidates_colliding");
+        }
+    }
+    // A third of the cases asks the SAME robot object again after editing it in place (all fields are public): one
+    // obstacle is moved (its number stays), or the safety table is replaced; the candidates are bit-identical to those
+    // of the first call. The answer must follow the robot as it is now.
+    if rng.usize(3) == 0 {
+        let mut cell2 = cell.clone();
+        let edit = rng.usize(3);
+        if edit < 2 && !cell2.env.is_empty() {
+            let k = rng.usize(cell2.env.len());
+            if edit == 0 {
+                // far away: candidates it blocked become free
+                cell2.env[k].1.p[2] += 20.0 * cell2.scale.max(0.3);
+            } else {
+                // onto a link of another candidate posture
+                let j = rng.usize(6);
+                let mut cand = initial;
+                cand[j] = if rng.bool(0.5) { from[j] } else { to[j] };
+                let saved = cell2.env.clone();
+                cell2.env.truncate(0);
+                let i = cell2.add_designed_obstacle(rng, &cand, j + rng.clone().usize(6 - j), -0.02);
+                let designed = cell2.env[i].clone();
+                cell2.env = saved;
+                cell2.env[k] = designed;
+            }
+            robot.body.collision_environment[k] = rs_opw_kinematics::collisions::CollisionBody { mesh: cell2.env[k].0.to_trimesh(), pose: crate::gen::fr_to_iso(&cell2.env[k].1).cast::<f32>() };
+        } else {
+            cell2.safety = if cell2.safety.special.is_empty() && cell2.safety.to_environment == 0.0 { cell2.random_safety(rng, mode) } else { SafetySpec::touch(mode) };
+            if cell2.safety.to_robot_default > 0.02 {
+                cell2.safety.to_robot_default = 0.008;
+            }
+            robot.body.safety = cell2.safety.build();
+        }
+        if robot.collides(&initial) {
+            mon.count("edited_robot_collides_at_the_initial_vector");
+        } else {
+            mon.count("second_calls_after_an_edit_in_place");
+            clause(mon, &robot, &cell2, "after-edit:");
         }
     }
     if idx < 2 {
-        mon.sample(json!({"initial": jf(&initial), "from": jf(&from), "to": jf(&to), "candidates": why.iter().map(|(j, n, w)| json!([j, n, w])).collect::<Vec<_>>(), "offered": got.len()}));
+        mon.sample(json!({"initial": jf(&initial), "from": jf(&from), "to": jf(&to), "candidates": why.iter().map(|(j, n, w)| json!([j, n, w])).collect::<Vec<_>>(), "offered": offered}));
     }
 }
